@@ -63,6 +63,8 @@ def hwFloat : FloatOps where
   eq64 x y := f64 x == f64 y
   lt64 x y := decide (f64 x < f64 y)
   le64 x y := decide (f64 x ≤ f64 y)
+  widen x := b64 (f32 x).toFloat
+  narrow x := b32 (f64 x).toFloat32
   cmul64 x y :=
     let a := (f32 x.1).toFloat; let b := (f32 x.2).toFloat
     let c := (f32 y.1).toFloat; let d := (f32 y.2).toFloat
